@@ -23,7 +23,8 @@ CFG = {
         "vaxis.Characters (uniseg segmentation, widths) is a parameter of the pager model: the harness passes the characters",
         "Window.Println / SetCell / Fill (clipping, C11) are not re-modelled here: the two facts used (a Println row >= height draws nothing; a SetCell outside the window changes nothing) are proved from C11's model (simple_list_println_rows, setcell_outside_ignored)",
         "uint is 64 bit (Go on amd64/arm64) in the Dynamic list model",
-        "for Dynamic.Draw / insertChildren / the event switches the step from the regenerated statement skeleton (Gen/DynSkel.lean) to the executable model (Model/DynList.lean) is a transcription pinned by skeleton_*/facts_* theorems and the correspondence run (the small methods are interpreted: interp_*)",
+        "the interpreter of the regenerated bodies (Model/DynExec.lean: parser of the flat statement lines, uint typing rule, what it keeps of surfaces - index, row, height; columns, cells and the child of the cursor surface are not represented) is the semantics of the Go subset the theorems draw_body_eq_model / insert_children_body_eq_model / handle_event_body_eq_model / capture_event_body_eq_model speak about; it is validated against the real code by the correspondence run (every dl op is run through it)",
+        "the *_body_eq_model theorems go through C19Tie.skeleton_* (regenerated body = the expected copy in Lemmas/DynSkelExpected.lean) and Lemmas/DynTrees.parse_* (kernel-evaluated parser): a change of list.go makes skeleton_* fail rather than re-proving the equality for the new body",
         "Props/C19.lean imports Spec/Surface.lean and Model/Window.lean (C14's spec of the painter's algorithm) for dyn_selected_on_top",
         "vxfw.NewSurface / AddChild / WriteCell (C14) are not re-modelled: the surface-size statement is syntactic (facts_surface_is_max) plus the harness reading s.Size",
     ],
@@ -39,7 +40,13 @@ CFG = {
                   "one Draw from ANY state and ANY gap; no panic, 'selected item visible after SetCursor/NextItem/PrevItem + "
                   "Draw', and 'top/offset anchored on the child covering row 0' proved for ALL gaps >= 0 and ALL histories "
                   "including replacement of the Builder's items (visibility even from any state, with any scroll pending); the surface returned has "
-                  "the size of the max constraint.",
+                  "the size of the max constraint. Round 3: ALL methods of Dynamic are EXECUTED from their regenerated bodies by an "
+                  "interpreter (loops with fuel, range loops, checked index expressions, the call of insertChildren, the event switches) "
+                  "and proved equal to the model for every builder, gap, state, constraint and event (draw_body_eq_model, "
+                  "insert_children_body_eq_model, handle_event_body_eq_model, capture_event_body_eq_model); the selected item is on top "
+                  "of the painter's algorithm also with the cursor gutter (two-level tree); an endless Builder of zero-height widgets "
+                  "makes Draw run out of fuel for every fuel (F119i, recorded); the pager's content-complete clause holds over scroll "
+                  "histories (every line reachable by ScrollDown, each line once per screenful, paging meets every line).",
     "level_note": "Proved for all inputs/histories: simple_list_safe, simple_list_selected_visible, simple_list_rows_in_order, "
                   "pager_complete, pager_offset_clamped, pager_scroll_history, pager_draw_rows, pager_row_keeps_characters "
                   "(characters >= 1 column wide, window >= 1 column), scrollbar_in_track, scrollbar_all_inputs, dyn_layout and "
@@ -54,9 +61,17 @@ CFG = {
                   "into syntax (no digest), fully_recognised, skeleton_* (statement structure), facts_* (every arithmetic/"
                   "boolean expression evaluated = the model's expression, for all values), interp_* (ensureScroll, SetCursor, "
                   "SetPendingScroll, NextItem, PrevItem: the regenerated syntax run through an interpreter IS the model function, "
-                  "for all states and builders), the six repair facts read off the skeleton in Lean; and by the public-API correspondence (0 mismatches allowed).",
+                  "for all states and builders), the six repair facts read off the skeleton in Lean; and by the public-API correspondence (0 mismatches allowed). "
+                  "Round 3 (Props/C19Exec.lean, Props/C19Pager.lean, Witness/F119i.lean): Model/DynExec.lean interprets every method body "
+                  "of Gen/DynSkel.lean; proved for ALL inputs: draw_body_eq_model (Draw incl. insertChildren call, cursor gutter, wants-cursor "
+                  "block, re-anchoring loop = DynList.draw Facts.fixed, same panics), insert_children_body_eq_model, handle_event_body_eq_model, "
+                  "capture_event_body_eq_model (every event), dyn_selected_on_top_gutter, pager_line_reachable_by_scrolling, "
+                  "pager_screen_lines_once, pager_pages_cover_text, zero_heights_draw_all + endless_builder_never_returns (F119i). So the "
+                  "step from the regenerated syntax to Model/DynList.lean is no longer a transcription: it is a theorem (via skeleton_* and "
+                  "the kernel-evaluated parser); validated by correspondence only: that the interpreter's semantics is Go's for this subset "
+                  "(the driver runs every dl op through it: 0 disagreements with model and implementation), Println/SetCell rows.",
     "assumptions": [
-        "Dynamic list: the Builder has fewer than 2^63 items and is prefix-closed (nil from the first missing index on)",
+        "Dynamic list: the Builder has fewer than 2^63 items and is prefix-closed (nil from the first missing index on); an endless Builder is covered only by F119i (Draw does not return when all its widgets have height 0 and the gap is 0)",
         "Draw contexts are bounded (Max.Width, Max.Height != 65535), as Dynamic.Draw itself requires",
     ],
     "technique": "Lean 4 proof over an executable model; extractor + differential correspondence harness",
